@@ -99,11 +99,14 @@ def run_history(scene, ops, traj, cover=None):
             if model.must_refuse(op):
                 return ({'clause': 'missing-prerequisite-accepted', 'op': op, 'pos': pos,
                          'state': state, 'changed': []}, pos + 1, refused)
-            model.apply(op)
-            want = model.expected(traj)
-            if post != want:
+            cands = model.successors(op)
+            match = next((m for m in cands if m.expected(traj) == post), None)
+            if match is None:
                 return ({'clause': 'non-canonical-result', 'op': op, 'pos': pos, 'state': state,
-                         'changed': diff_parts(want, post)}, pos + 1, refused)
+                         'changed': diff_parts(cands[0].expected(traj), post)},
+                        pos + 1, refused)
+            model = match
+            want = post
             if op.startswith('MM'):
                 lvl = {'s': 'slices', 'g': 'groups', 'l': 'layers'}[op[2]]
                 if repr(('ok', ret)) != want[f'msg.{lvl}']:
